@@ -1198,4 +1198,12 @@ theorem PathRouter.new_allowed {comps : List Comp} {fbs : List Fb} {r : PathRout
     | none =>
       rw [hfind, hf] at hd; cases hd
 
+
+theorem Table.noNestedSuffix_of_check {t : Table} (h : t.noNestedSuffixB = true) : t.NoNestedSuffix := by
+  cases t with
+  | agnostic r => exact Pxv.Matchit.noNestedSuffix_of_check h
+  | domains ds f =>
+    simp only [Table.noNestedSuffixB, Bool.and_eq_true, List.all_eq_true] at h
+    exact ⟨Pxv.Matchit.noNestedSuffix_of_check h.1, fun d hd => Pxv.Matchit.noNestedSuffix_of_check (h.2 d hd)⟩
+
 end Pxv.Router
